@@ -737,7 +737,13 @@ impl Harness {
     }
 
     fn log_sub(&self, rep: &SubReport) {
-        let errs: Vec<String> = rep.max_error.iter().map(|(k, v)| format!("{}={:.3e}", k, v)).collect();
+        // the twelve largest worst-errors on the console (all of them are in the evidence file)
+        let mut ranked: Vec<(&String, &f64)> = rep.max_error.iter().collect();
+        ranked.sort_by(|a, b| b.1.partial_cmp(a.1).unwrap_or(std::cmp::Ordering::Equal).then(a.0.cmp(b.0)));
+        let mut errs: Vec<String> = ranked.iter().take(12).map(|(k, v)| format!("{}={:.3e}", k, v)).collect();
+        if ranked.len() > 12 {
+            errs.push(format!("(+{} more in the evidence file)", ranked.len() - 12));
+        }
         println!(
             "[{}] {:<34} evals={:<11} nontrivial={:<10} known_hits={} failing={} {:.1}s {}{}",
             self.id,
